@@ -2,6 +2,7 @@ package props
 
 import (
 	"fmt"
+	rio "github.com/pip-services3-gox/pip-services3-expressions-gox/io"
 	"strings"
 	"sync"
 	"testing"
@@ -253,6 +254,9 @@ func c09RunPooled(rec *evid.Recorder, c c09Case) {
 	t := pool.Get().(*csv.CsvTokenizer)
 	rec.Case(jsonStr(c), c09NonTrivial(c), func() interface{} { return c }, "eol:"+fmt.Sprintf("%q", c.Eol))
 	f := checkC09With(t, c)
+	// handed back the way a caller may leave it: another text started, one token peeked and never fetched
+	t.SetReader(rio.NewStringScanner("left,over\n"))
+	t.HasNextToken()
 	pool.Put(t)
 	if f != nil {
 		if ff := checkC09(c); ff != nil {
